@@ -428,7 +428,7 @@ pub fn run(c: &Ctx) {
     });
     c.note("matrix_cases", cases.len());
     // the same matrix for the real-filesystem backend: Stdfs vs Vfs::Stdfs on twin sandbox directories
-    let spaths = ["@/d/gw", "@/d/gx", "@", "@/d", "@/d/f", "@/d/sub", "@/d/sub/g", "@/exe", "@/lf", "@/ld", "@/nope", "@/d/new", "@/new/deep"];
+    let spaths = ["@/dang", "@/d/gw", "@/d/gx", "@", "@/d", "@/d/f", "@/d/sub", "@/d/sub/g", "@/exe", "@/lf", "@/ld", "@/nope", "@/d/new", "@/new/deep"];
     let mut twin: Vec<Op> = vec![];
     for p in spaths {
         twin.extend(single_path_ops(p, true).into_iter().filter(|o| !matches!(o, Op::SetCwd(_))));
